@@ -22,6 +22,8 @@ def gen_life_scenario(rng, tier, kind):
         sc["post_ops"] = [CS.gen_op(rng, False) for _ in range(rng.randrange(0, 5))]
         # the link drops in the middle of a line: bytes received, no CR LF yet
         sc["partial_before_fault"] = rng.random() < 0.3
+        # the reader is descheduled right after its drain found the queue empty, while callers keep submitting
+        sc["stall_after_drain_us"] = rng.choice([0, 0, 0, 2000, 30000, 60000])
         sc["close_after"] = rng.random() < 0.5
         sc["disc_closes"] = rng.random() < 0.2  # the disconnect callback itself calls close()
     else:
@@ -55,6 +57,7 @@ def gen_life_scenario(rng, tier, kind):
 def run_life_scenario(sc):
     rng = random.Random(sc["seed"])
     s = CT.Session(sc["seed"], respond=CS.make_responder(rng, sc["mode"]), latency_us=sc["latency_us"], log_size=sc["log_size"], switch_prob=sc["switch_prob"], delay_prob=sc["delay_prob"], max_delay_us=50000, choices=sc.get("choices"))
+    s.sim.stall_after_empty_us = sc.get("stall_after_drain_us", 0)
     s.close_calls = []  # dict(thread, start_idx, end_idx, exc)
     s.user_cb = []  # (event index, kind)
     s.connected_reads = []
@@ -235,10 +238,21 @@ def mon_c15(s, sc):
                     pend = 1
                 elif e["k"] in ("Write", "WriteErr"):
                     pend = 0
-        late_enq = sum(1 for e in ev[i_drain_end:] if e["k"] == "Enq" and (e.get("marker") is None or "KEEP" in e["marker"]))
+        # commands submitted AFTER the connection reported itself not connected are calls on a dead connection: silent
+        # no-ops.  Only a call that had looked at `connected` before the loss may still get its command queued.
+        inflight = 0
+        for i in range(i_drain_end, len(ev)):
+            e = ev[i]
+            if e["k"] == "Enq" and (e.get("marker") is None or "KEEP" in (e.get("marker") or "")):
+                if e["th"] in ("reader", "sender"):
+                    inflight += 1  # the library's own keep-alive marker
+                    continue
+                look = next((j for j in range(i - 1, -1, -1) if ev[j]["th"] == e["th"] and ev[j]["k"] == "Get" and ev[j].get("attr") == "connected"), None)
+                if look is not None and look < i_lost:
+                    inflight += 1
         writes_after = [e for e in ev[i_drain_end:] if e["k"] == "Write"]
-        if len(writes_after) > pend + late_enq:
-            return f"{len(writes_after)} lines were written after connection_lost had emptied the queue although only {pend} was in the sender's hand and {late_enq} were submitted afterwards: queued commands were written instead of discarded"
+        if len(writes_after) > pend + inflight:
+            return f"lines were written after connection_lost had emptied the queue ({len(writes_after)}) although only {pend} was in the sender's hand and {inflight} submission(s) had begun before the loss: commands queued at the loss or submitted on the dead connection were written instead of discarded"
         drained = [e["item"] for e in ev[i_lost:i_drain_end] if e["k"] == "Deq" and e.get("nowait") and e["th"] == "reader"]
         s.n_drained = len(drained)
     i_dcb = _idx(ev, lambda e: e["k"] == "DisconnectCb")
